@@ -12,6 +12,7 @@ import MotoModel.Props.C04
 import MotoModel.Proofs.DiskOrder
 import MotoModel.Proofs.DiskBatchOrder
 import MotoModel.Proofs.Names
+import MotoModel.Proofs.DiskNames
 namespace Moto.C02
 open Moto Moto.Disk
 
@@ -315,5 +316,23 @@ example : Spec.Names.diskSource (Tape.str "dir.d/prog.bas,a")
     = ⟨Tape.str "PROG", Tape.str "BAS", Tape.str "BAS,A", Tape.str "dir.d/prog.bas"⟩ := by decide
 example : Spec.Names.diskSource (Tape.str "x/noext") = ⟨Tape.str "NOEXT", [], [], Tape.str "x/noext"⟩ := by decide
 example : Spec.Names.diskSource (Tape.str "prog.v2.bin") = ⟨Tape.str "PROG.V2", Tape.str "BIN", Tape.str "BIN", Tape.str "prog.v2.bin"⟩ := by decide
+
+
+/-- **C02 (from the naming rule to the name printed and extracted)**: for every source argument whose stem (`Spec.Names.diskSource`:
+    the last path component up to its last dot, upper-cased) and stored extension are plain printable characters (0x21..0x7E) that fit
+    the 8 + 3 fields, the name under which the file is listed and extracted — `diskName`, read back from the eleven name bytes of the
+    catalog entry the tool writes — is `STEM.EXT`.  (The stored extension is what the kind table makes of the extension: `BAS` for
+    `bas,a`, the extension itself otherwise.) -/
+theorem plain_source_is_listed_as_name_dot_ext (src : Str)
+    (hn : Plain (Spec.Names.diskSource src).name) (hn8 : (Spec.Names.diskSource src).name.length ≤ 8)
+    (he : Plain (dispatch (Spec.Names.diskSource src).name (Spec.Names.diskSource src).ext (Spec.Names.diskSource src).extWithOption).2.2)
+    (he3 : (dispatch (Spec.Names.diskSource src).name (Spec.Names.diskSource src).ext (Spec.Names.diskSource src).extWithOption).2.2.length ≤ 3) :
+    diskName src = upper (Spec.Names.diskSource src).name ++ [46]
+      ++ upper (dispatch (Spec.Names.diskSource src).name (Spec.Names.diskSource src).ext (Spec.Names.diskSource src).extWithOption).2.2 := by
+  unfold diskName
+  rw [source_naming_rule src]
+  exact fileName_of_newRecord _ _ hn he hn8 he3 0 0 0 0
+
+example : diskName (Tape.str "my.dir/prog.v2.bas,a") = Tape.str "PROG.V2.BAS" := by decide +kernel
 
 end Moto.C02
